@@ -255,10 +255,11 @@ def init_scheme_props(pas, dim):
                 a = pa.get(nm, only_real_particles=False)
                 if len(a) and not np.any(a):
                     a[:] = val
-        if 'rho0' in pa.properties:
-            a = pa.get('rho0', only_real_particles=False)
-            if len(a) and not np.any(a):
-                a[:] = pa.get('rho', only_real_particles=False)
+        for nm, src in (('rho0', 'rho'), ('h0', 'h')):
+            if nm in pa.properties:
+                a = pa.get(nm, only_real_particles=False)
+                if len(a) and not np.any(a):
+                    a[:] = pa.get(src, only_real_particles=False)
 
 
 def run_check(cls, dim, with_solid, opts, run=True):
